@@ -177,6 +177,11 @@ def judge(case):
             got = sut.call(res[1], env)
             # a group literal is data: what comes back is one of the declared labels, character for character (nothing
             # formats, interpolates or otherwise "applies" it to the call's fields)
+            if got[0] == "error" and case.get("strict_eval") and got[1] in ("TypeError", "RecursionError", "NameError", "AttributeError", "KeyError"):
+                # (type-compatible inputs by construction:) evaluation runs the fixed skeleton only - nothing of the experiment
+                # (its name, its literals) stands in for a helper of that skeleton
+                viol.append("evaluation ended in an internal %s: %s | inputs=%r | %s" % (got[1], got[2], env, text))
+                break
             if got[0] == "group" and not any(sut.same_value(got[1], d) for d in declared):
                 viol.append("evaluation returned %r, which is none of the declared group literals %r | inputs=%r | %s" % (got[1], declared[:6], env, text))
                 break
@@ -191,6 +196,15 @@ def judge(case):
 def judge_case(record):
     c = record["case"]
     return (judge_spelling(c) if "pick" in c else judge(c))["viol"]
+
+
+def named_cases():
+    """experiments NAMED like the helpers and builtins the evaluation skeleton uses (their own def must not stand in for them)"""
+    for name in ("partial", "deterministic_choice", "str", "map", "choose_experiment_variant", "isinstance", "list", "tuple", "len", "repr", "print", "exec", "compile"):
+        p = name + "(1)"
+        body = M.if_([(M.cmp_(M.ident("f"), "==", M.lit_str(p)), M.ret([(M.lit_str(p + "#a"), "1"), (M.lit_str(name), "1")]))], M.ret([(M.lit_str("c"), "1")]))
+        yield {"prog": M.program(name, body, salt=name, splitters=["uid"]), "strict_eval": True, "noise": None,
+               "inputs": [M.enc_inputs({"uid": "u%d" % j, "f": [p, "z", name][j % 3]}) for j in range(6)]}
 
 
 def fixed_cases():
@@ -227,6 +241,9 @@ def judge_spelling(case):
 def run(ctx, rec):
     if ctx.shard == 0:
         runner.direct_run(ctx, rec, "payload-catalogue", fixed_cases(), judge)
+        if rec.violations:
+            return
+        runner.direct_run(ctx, rec, "experiments-named-like-skeleton-helpers", [c for c in named_cases()], judge)
         if rec.violations:
             return
     runner.hyp_run(ctx, rec, "generated", cases(), judge, ctx.n(150, 1200))
